@@ -71,6 +71,25 @@ static unsigned long g_live_bytes;
 static void *g_ctx_guard;      /* when set: every context-taking port call must carry this interface context (C17) */
 #define V_CTX(ctx) V_ASSERT(g_ctx_guard == 0 || (ctx) == g_ctx_guard, "C17: platform calls carry the context of the interface the frame arrived on")
 
+/* C17 thread model at port calls: while one interface's thread is inside a platform call (sleep, send,
+ * allocation, getter) the other interface's thread may run. When armed, the hook runs once, at the
+ * g_preempt_at-th port call. */
+#ifdef V_PREEMPT
+static void v_preempt_target(void);          /* defined by the harness */
+static int g_preempt_armed;
+static unsigned g_portcalls, g_preempt_at;
+static void v_preempt(void) {
+    if (g_preempt_armed) {
+        if (g_portcalls++ == g_preempt_at) {
+            g_preempt_armed = 0;
+            v_preempt_target();
+        }
+    }
+}
+#else
+#define v_preempt() do { } while (0)
+#endif
+
 /* harness hooks */
 static void on_send(void *ctx, const uint8_t *f, size_t n);
 static void on_sleep(uint32_t ms);
@@ -102,6 +121,7 @@ static void *v_alloc(size_t size) {
 }
 
 void *lltd_port_malloc(size_t size) {
+    v_preempt();
     unsigned idx = g_nmalloc++;
     if (g_faults_on && idx < V_MAXFAIL && g_fail_malloc[idx]) {
         return NULL;
@@ -110,6 +130,7 @@ void *lltd_port_malloc(size_t size) {
 }
 
 void lltd_port_free(void *ptr) {
+    v_preempt();
     g_nfree++;
     if (!ptr) return;
 #ifdef VERIF_CBMC
@@ -147,7 +168,7 @@ void *lltd_port_memcpy(void *d, const void *s, size_t num) { return memcpy(d, s,
 #endif
 int lltd_port_memcmp(const void *a, const void *b, size_t num) { return memcmp(a, b, num); }
 
-void lltd_port_sleep_ms(uint32_t ms) { g_nsleep++; on_sleep(ms); g_nevent++; }
+void lltd_port_sleep_ms(uint32_t ms) { g_nsleep++; on_sleep(ms); g_nevent++; v_preempt(); }
 
 int lltd_port_send_frame(void *iface_ctx, const void *frame, size_t frame_len) {
     unsigned idx = g_nsend++;
@@ -155,6 +176,7 @@ int lltd_port_send_frame(void *iface_ctx, const void *frame, size_t frame_len) {
 #ifdef VERIF_CBMC
     __CPROVER_assert(frame != 0 && __CPROVER_r_ok(frame, frame_len), "send_frame: frame readable for frame_len");
 #endif
+    v_preempt();
     on_send(iface_ctx, (const uint8_t *)frame, frame_len);
     g_nevent++;
     if (g_faults_on && idx < V_MAXFAIL && g_fail_send[idx]) return -1;
@@ -163,6 +185,7 @@ int lltd_port_send_frame(void *iface_ctx, const void *frame, size_t frame_len) {
 
 int lltd_port_get_mtu(void *iface_ctx, size_t *out_mtu) {
     V_CTX(iface_ctx);
+    v_preempt();
     vcfg *c = (vcfg *)iface_ctx;
     if (c->mtu_fail) return -1;
     *out_mtu = c->mtu;
@@ -228,6 +251,7 @@ size_t lltd_port_get_hw_id(void *dst, size_t dst_len) {
 
 int lltd_port_get_mac_address(void *iface_ctx, ethernet_address_t *out_mac) {
     V_CTX(iface_ctx);
+    v_preempt();
     vcfg *c = (vcfg *)iface_ctx;
     if (c->mac_fail) return -1;
     memcpy(out_mac->a, c->mac, 6);
